@@ -141,6 +141,21 @@ CLAIMS['C47'] = dict(
          'random.choice returns an element of its non-empty argument; configuration dictionaries have the '
          'documented keys (record-dictionary model).')
 
+CLAIMS['C24'] = dict(
+    category='proof',
+    text='RestrictedNodeVisitor.visit is proved against its body to raise before anything else when the node is '
+         'not whitelisted and to return normally only if the whole subtree is whitelisted (structural induction '
+         'carried by its own contract through ast.NodeVisitor.visit). The eval call in '
+         'restricted_evaluator._eval (verified on the real closure CompletionEvaluator) is a sink with three '
+         'obligations, discharged on every path: the compiled object is compile(<the parsed node>, ..., "eval") '
+         'of a node for which visit returned normally; globals are the literal {"__builtins__": {}}; locals are '
+         'exactly the **variables of the call. A scan checks the completion whitelist is a subset of '
+         '{Expression, Name, Load, BoolOp, And, Or, BinOp}.',
+    note=_PROOF_NOTE + 'Assumed: ast.NodeVisitor.visit/generic_visit call self.visit on every child node and '
+         'return normally only if all of them do; ast.parse returns a tree or raises SyntaxError; CPython '
+         'evaluates a tree of only those node types without calls, attribute access or subscripts. Other '
+         'evaluator instances (host ranking) share the same _eval code; only the closure is verified.')
+
 NOT_APPLICABLE = {
     'C01': 'equality between the set of instances submitted over a whole run and the spawn-on-demand closure, for '
            'every schedule: a whole-history property; no postcondition of one call states it. Its per-call '
